@@ -9,7 +9,7 @@ CONSTANTS
   Broken <- GenBroken
   InitMap <- GenInit
 VIEW view
-INVARIANTS TypeOK MutualExclusion NoLostUpdate MonotoneReads ReadsSeePublished ReadsNeverWait
+INVARIANTS TypeOK MutualExclusion NoLostUpdate MonotoneReads ReadsSeePublished ReadsNeverWait WritersWaitOnlyForWriters
 PROPERTIES AppendOnly StepwiseSerial
 ACTION_CONSTRAINT EmitEdge
 CHECK_DEADLOCK FALSE
